@@ -27,11 +27,18 @@ Ids(F) == {n \in DOMAIN F : F[n].live}
 Kids(F, p) == {k \in Ids(F) : F[k].par = p}
 Roots(F) == {n \in Ids(F) : F[n].par = 0}
 
+\* TLC: a function written as [i \in 1..n |-> e] is evaluated lazily, e again at every application; Mat makes it an explicit
+\* tuple once (pure efficiency, no meaning)
+Mat(s) == SubSeq(s, 1, Len(s))
+
 \* ---------------------------------------------------------------- length: explicit size wins, else max(own binary, child ends) aligned up
 RECURSIVE ILen(_, _)
 MaxEnd(F, n) == Max({Len(F[n].bin)} \cup {F[k].off + ILen(F, k) : k \in Kids(F, n)})
 ILen(F, n) == IF F[n].size0 # 0 THEN F[n].size0 ELSE Align(MaxEnd(F, n), F[n].al)
 End(F, k) == F[k].off + ILen(F, k)
+\* the same, tabulated once per forest:  T.len[n] = ILen(F, n),  T.kids[n] = Kids(F, n)
+Tab(F) == [len |-> Mat([n \in 1..Len(F) |-> IF F[n].live THEN ILen(F, n) ELSE 0]),
+           kids |-> Mat([n \in 1..Len(F) |-> Kids(F, n)])]
 
 RECURSIVE Abs(_, _)
 Abs(F, n) == IF F[n].par = 0 THEN F[n].off ELSE Abs(F, F[n].par) + F[n].off
@@ -41,28 +48,31 @@ RECURSIVE Desc(_, _)
 Desc(F, n) == {n} \cup UNION {Desc(F, k) : k \in Kids(F, n)}
 
 \* ---------------------------------------------------------------- validity: a child sticks out of its parent, or two siblings overlap
-Sticks(F, p, k) == End(F, k) > ILen(F, p)
-Overlap(F, j, k) == ILen(F, j) > 0 /\ ILen(F, k) > 0 /\ F[j].off < End(F, k) /\ F[k].off < End(F, j)
-RECURSIVE ValidStrict(_, _)
-ValidStrict(F, n) == /\ \A k \in Kids(F, n) : ValidStrict(F, k) /\ ~Sticks(F, n, k)
-                     /\ \A j, k \in Kids(F, n) : j # k => ~Overlap(F, j, k)
+SticksT(F, T, p, k) == F[k].off + T.len[k] > T.len[p]
+OverlapT(F, T, j, k) == T.len[j] > 0 /\ T.len[k] > 0 /\ F[j].off < F[k].off + T.len[k] /\ F[k].off < F[j].off + T.len[j]
+RECURSIVE ValidT(_, _, _)
+ValidT(F, T, n) == /\ \A k \in T.kids[n] : ValidT(F, T, k) /\ ~SticksT(F, T, n, k)
+                   /\ \A j, k \in T.kids[n] : j # k => ~OverlapT(F, T, j, k)
+ValidStrict(F, n) == ValidT(F, Tab(F), n)
 \* a zero-length image strictly inside a sibling has no byte in common with it; whether that "overlaps" is not settled
-RECURSIVE Debatable(_, _)
-Debatable(F, n) == \/ \E k \in Kids(F, n) : Debatable(F, k)
-                   \/ \E j, k \in Kids(F, n) : j # k /\ ILen(F, k) = 0 /\ F[j].off < F[k].off /\ F[k].off < End(F, j)
+RECURSIVE DebatableT(_, _, _)
+DebatableT(F, T, n) == \/ \E k \in T.kids[n] : DebatableT(F, T, k)
+                       \/ \E j, k \in T.kids[n] : j # k /\ T.len[k] = 0 /\ F[j].off < F[k].off /\ F[k].off < F[j].off + T.len[j]
 \* what validate() must say:  "ok", "error", or "any" where the property is silent
-Verdict(F, n) == IF ~ValidStrict(F, n) THEN "error" ELSE IF Debatable(F, n) THEN "any" ELSE "ok"
+Verdict(F, n) == LET T == Tab(F) IN IF ~ValidT(F, T, n) THEN "error" ELSE IF DebatableT(F, T, n) THEN "any" ELSE "ok"
 
 \* ---------------------------------------------------------------- the source of byte i (0-based) of the export of node n
 Zero == [k |-> "zero", n |-> 0, i |-> 0]
 Free == [k |-> "free", n |-> 0, i |-> 0]
-RECURSIVE Src(_, _, _)
-Src(F, n, i) ==
-  LET hit == {k \in Kids(F, n) : F[k].off <= i /\ i < End(F, k)} IN
-  IF hit # {} THEN LET k == CHOOSE k \in hit : TRUE IN Src(F, k, i - F[k].off)          \* a child's byte at its offset
-  ELSE IF i < Len(F[n].bin) THEN (IF Kids(F, n) = {} THEN F[n].bin[i + 1] ELSE Free)      \* the own binary starts at 0
+RECURSIVE SrcT(_, _, _, _)
+SrcT(F, T, n, i) ==
+  LET hit == {k \in T.kids[n] : F[k].off <= i /\ i < F[k].off + T.len[k]} IN
+  IF hit # {} THEN LET k == CHOOSE k \in hit : TRUE IN SrcT(F, T, k, i - F[k].off)       \* a child's byte at its offset
+  ELSE IF i < Len(F[n].bin) THEN (IF T.kids[n] = {} THEN F[n].bin[i + 1] ELSE Free)      \* the own binary starts at 0
   ELSE IF F[n].pat.kind = "none" THEN Zero ELSE [k |-> "pat", n |-> n, i |-> i]            \* everything else: the node's pattern
-Map(F, n) == [i \in 1..ILen(F, n) |-> Src(F, n, i - 1)]
+MapT(F, T, n) == Mat([i \in 1..T.len[n] |-> SrcT(F, T, n, i - 1)])
+Src(F, n, i) == SrcT(F, Tab(F), n, i)
+Map(F, n) == MapT(F, Tab(F), n)
 \* export() content is asserted for valid trees inside the domain (for invalid trees the property defines only the verdict)
 InDomain(F) == \A n \in Ids(F) : F[n].size0 = 0 \/ F[n].size0 >= Len(F[n].bin)
 ExportAsserted(F, n) == ValidStrict(F, n) /\ InDomain(F)
@@ -78,7 +88,8 @@ Val(F, s) == CASE s.k = "bin"  -> F[s.n].data[s.i + 1]
                [] s.k = "pat"  -> PatByte(F[s.n].pat, s.i)
                [] s.k = "zero" -> 0
                [] OTHER        -> 0 - 1
-Bytes(F, n) == LET M == Map(F, n) IN [i \in 1..Len(M) |-> Val(F, M[i])]
+BytesOf(F, M) == Mat([i \in 1..Len(M) |-> Val(F, M[i])])
+Bytes(F, n) == BytesOf(F, Map(F, n))
 Matches(exp, got) == Len(exp) = Len(got) /\ \A i \in 1..Len(exp) : exp[i] = 0 - 1 \/ exp[i] = got[i]
 
 \* ---------------------------------------------------------------- the composition history as a state machine
@@ -139,15 +150,16 @@ TypeOK == \A n \in Ids(forest) : /\ forest[n].par \in {0} \cup Ids(forest) /\ fo
                                  /\ RootOf(forest, n) \in Roots(forest)
 StaysInDomain == InDomain(forest)
 \* in a valid tree every byte of every sub-image (at any depth) appears at the sub-image's absolute offset
-ChildBytesInPlaceOf(F) == \A r \in Roots(F) : ValidStrict(F, r) =>
-                            \A d \in Desc(F, r) : \A i \in 0..(ILen(F, d) - 1) : Src(F, r, Abs(F, d) - Abs(F, r) + i) = Src(F, d, i)
+ChildBytesInPlaceOf(F) == LET T == Tab(F) IN
+                          \A r \in Roots(F) : ValidT(F, T, r) =>
+                            \A d \in Desc(F, r) : \A i \in 0..(T.len[d] - 1) : SrcT(F, T, r, Abs(F, d) - Abs(F, r) + i) = SrcT(F, T, d, i)
 ChildBytesInPlace == ChildBytesInPlaceOf(forest)
 \* alignment padding only extends the end: the derived length is the aligned-up maximum, less than one alignment unit longer,
 \* and the padding holds the node's own fill
-PaddingOnlyAtEndOf(F) == \A n \in Ids(F) :
-     /\ ILen(F, n) % F[n].al = 0
-     /\ F[n].size0 = 0 => /\ ILen(F, n) >= MaxEnd(F, n) /\ ILen(F, n) - MaxEnd(F, n) < F[n].al
-                          /\ \A i \in MaxEnd(F, n)..(ILen(F, n) - 1) : Src(F, n, i).k \in {"pat", "zero"} /\ Src(F, n, i).n \in {0, n}
+PaddingOnlyAtEndOf(F) == LET T == Tab(F) IN \A n \in Ids(F) :
+     /\ T.len[n] % F[n].al = 0
+     /\ F[n].size0 = 0 => /\ T.len[n] >= MaxEnd(F, n) /\ T.len[n] - MaxEnd(F, n) < F[n].al
+                          /\ \A i \in MaxEnd(F, n)..(T.len[n] - 1) : SrcT(F, T, n, i).k \in {"pat", "zero"} /\ SrcT(F, T, n, i).n \in {0, n}
 PaddingOnlyAtEnd == PaddingOnlyAtEndOf(forest)
 \* the map has exactly the reported length and a node without children and pattern exports its binary, zero-extended
 LeafExport == \A n \in Ids(forest) : Kids(forest, n) = {} =>
@@ -158,7 +170,7 @@ VerdictMonotone == \A n \in Ids(forest) : \A k \in Kids(forest, n) : Verdict(for
 \* join_images changes no byte of any image
 JoinPreserves == [][act'.a = "Join" => \A r \in Roots(forest) : r \in Roots(forest') /\ Map(forest', r) = Map(forest, r)]_vars
 \* absolute address -> payload byte
-DataMap(F, r) == {<<F[r].off + i - 1, Map(F, r)[i]>> : i \in {j \in 1..ILen(F, r) : Map(F, r)[j].k = "bin"}}
+DataMap(F, r) == LET M == Map(F, r) IN {<<F[r].off + i - 1, M[i]>> : i \in {j \in 1..Len(M) : M[j].k = "bin"}}
 \* update_offsets moves no payload byte to another absolute address (as long as the tree stays valid and the node has no own binary)
 UpdateOffsetsPreserves ==
   [][act'.a = "UpdateOffsets" /\ forest[act'.n].bin = <<>> =>
